@@ -245,20 +245,20 @@ Section Main.
       + left. assert (Eq : q == lst) by lra. rewrite Eq. apply cw_self.
   Qed.
 
-  Lemma sector_core_unfold : sector_core d ==
+  Lemma sector_core_v1_unfold : sector_core_v1 d ==
     let best := first_max adiff (x, hd x (rollq d)) cps in
     let second := qmod360 (snd best - fst best) in
     let maxrot := qmax_list (map (fun r => qmod360 (r - fst best)) (rollq d)) in
     if (count_nz (map adiff cps) <=? 2)%nat then qmax_list (map adiff cps)
     else if Qeq_bool maxrot second then second else 360 - second.
-  Proof. unfold sector_core, d, cps. cbv zeta. rewrite (cps_combine x t). reflexivity. Qed.
+  Proof. unfold sector_core_v1, d, cps. cbv zeta. rewrite (cps_combine x t). reflexivity. Qed.
 
   Lemma head_in_cps : In (x, hd x (rollq d)) cps.
   Proof. unfold cps, d. destruct t; simpl; left; reflexivity. Qed.
 
-  Theorem sector_core_spec_ne : sector_core d == sector_spec_sorted d.
+  Theorem sector_core_v1_spec_ne : sector_core_v1 d == sector_spec_sorted d.
   Proof.
-    rewrite sector_core_unfold. cbv zeta. unfold sector_spec_sorted.
+    rewrite sector_core_v1_unfold. cbv zeta. unfold sector_spec_sorted.
     rewrite <- (qmax_list_eq _ _ gs_cgaps).
     assert (Ngs : gs <> []) by (unfold gs, cps; destruct t; simpl; discriminate).
     destruct (qmax_list_spec gs Ngs) as [MI ML]. set (M := qmax_list gs) in *.
@@ -357,7 +357,7 @@ Proof. revert prev. induction l as [|y t IH]; intros prev Hf H.
     + intros g [<-|Hg]; [left; rewrite (H prev (or_introl eq_refl)), (H y (or_intror (or_introl eq_refl))); ring | apply I2; exact Hg].
 Qed.
 
-Lemma sector_core_spec_eq x t : qsorted (x :: t) -> in_range (x :: t) -> last t x <= x -> sector_core (x :: t) == sector_spec_sorted (x :: t).
+Lemma sector_core_v1_spec_eq x t : qsorted (x :: t) -> in_range (x :: t) -> last t x <= x -> sector_core_v1 (x :: t) == sector_spec_sorted (x :: t).
 Proof.
   intros Hs Hr Hle.
   assert (Hall : forall q, In q (x :: t) -> q == x).
@@ -368,7 +368,7 @@ Proof.
     assert (N : gaps_from x x t <> []) by (destruct t; simpl; discriminate).
     destruct (qmax_list_spec _ N) as [MI ML]. pose proof (ML _ I1) as G. pose proof (Hall _ (last_in x t)) as El.
     destruct (I2 _ MI) as [Z|Z]; lra. }
-  rewrite Spec. rewrite (sector_core_unfold x t). cbv zeta.
+  rewrite Spec. rewrite (sector_core_v1_unfold x t). cbv zeta.
   assert (Z : forall p, In p (cpairs_from x x t) -> adiff p == 0).
   { intros p Hp. destruct (cps_in_d x t Hs Hr p Hp) as [Ia Ib]. destruct p as [a b]. simpl in *.
     apply adiff_zero_iff; [apply Hr; exact Ia | apply Hr; exact Ib | rewrite (Hall a Ia), (Hall b Ib); reflexivity]. }
@@ -381,9 +381,54 @@ Proof.
   destruct (qmax_list_spec _ N) as [MI _]. apply in_map_iff in MI. destruct MI as [p [<- Hp]]. apply Z. exact Hp.
 Qed.
 
-Theorem sector_core_spec_sorted d : d <> [] -> qsorted d -> in_range d -> sector_core d == sector_spec_sorted d.
+Theorem sector_core_v1_spec d : d <> [] -> qsorted d -> in_range d -> sector_core_v1 d == sector_spec_sorted d.
 Proof. destruct d as [|x t]; [congruence|]. intros _ Hs Hr.
-  destruct (Qlt_le_dec x (last t x)) as [L|L]; [apply sector_core_spec_ne | apply sector_core_spec_eq]; assumption. Qed.
+  destruct (Qlt_le_dec x (last t x)) as [L|L]; [apply sector_core_v1_spec_ne | apply sector_core_v1_spec_eq]; assumption. Qed.
+
+(* ------------------------------------------------------------------------------------ *)
+(* the repaired routine (/repo abf9f57): gaps = (rolled - data) % 360, 360 - largest gap,  *)
+(* 0 when all directions coincide                                                         *)
+(* ------------------------------------------------------------------------------------ *)
+Lemma sector_core_unfold2 x t : sector_core (x :: t) =
+  let largest := qmax_list (map gpair (cpairs_from x x t)) in if Qeq_bool largest 0 then 0 else 360 - largest.
+Proof. unfold sector_core. rewrite (cps_combine x t). reflexivity. Qed.
+
+Theorem sector_core_spec_sorted d : d <> [] -> qsorted d -> in_range d -> sector_core d == sector_spec_sorted d.
+Proof.
+  destruct d as [|x t]; [congruence|]. intros _ Hs Hr. rewrite sector_core_unfold2. cbv zeta.
+  destruct (Qlt_le_dec x (last t x)) as [L|L].
+  - (* not all equal: the gaps are the circular gaps of the specification, the largest is positive *)
+    pose proof (gs_cgaps x t Hs Hr L) as G. pose proof (qmax_list_eq _ _ G) as EM.
+    assert (N : map gpair (cpairs_from x x t) <> []) by (destruct t; simpl; discriminate).
+    destruct (qmax_list_spec _ N) as [MI ML].
+    pose proof (gs_sum x t Hs Hr L) as S. pose proof (gs_nonneg x t) as Nn.
+    assert (P : 0 < qmax_list (map gpair (cpairs_from x x t))).
+    { destruct (Qlt_le_dec 0 (qmax_list (map gpair (cpairs_from x x t)))) as [P|P]; [exact P|]. exfalso.
+      pose proof (qsum_le_count _ 0 Nn) as X.
+      assert (H0 : forall g, In g (map gpair (cpairs_from x x t)) -> g <= 0) by (intros g Hg; specialize (ML g Hg); lra).
+      specialize (X H0 (Qle_refl 0)). lra. }
+    pose proof (Qeq_bool_spec (qmax_list (map gpair (cpairs_from x x t))) 0) as Hz.
+    destruct (Qeq_bool (qmax_list (map gpair (cpairs_from x x t))) 0); [lra|].
+    unfold sector_spec_sorted. rewrite EM. reflexivity.
+  - (* all equal: every gap is 0 *)
+    assert (Hall : forall q, In q (x :: t) -> q == x).
+    { intros q Hq. pose proof (x_le_all x t Hs q Hq). pose proof (all_le_lst x t Hs q Hq). lra. }
+    rewrite <- (sector_core_v1_spec_eq x t Hs Hr L).
+    assert (Z1 : sector_core_v1 (x :: t) == 0).
+    { rewrite (sector_core_v1_spec_eq x t Hs Hr L). unfold sector_spec_sorted. simpl cgaps.
+      destruct (gaps_all_equal x x t x (Qeq_refl x) Hall) as [I1 I2].
+      assert (N : gaps_from x x t <> []) by (destruct t; simpl; discriminate).
+      destruct (qmax_list_spec _ N) as [MI ML]. pose proof (ML _ I1) as G. pose proof (Hall _ (last_in x t)) as El.
+      destruct (I2 _ MI) as [Z|Z]; lra. }
+    rewrite Z1.
+    assert (N : map gpair (cpairs_from x x t) <> []) by (destruct t; simpl; discriminate).
+    destruct (qmax_list_spec _ N) as [MI _]. apply in_map_iff in MI. destruct MI as [p [E Hp]].
+    destruct (cps_in_d x t Hs Hr p Hp) as [Ia Ib].
+    assert (Z : qmax_list (map gpair (cpairs_from x x t)) == 0).
+    { rewrite <- E. unfold gpair. rewrite (Hall _ Ia), (Hall _ Ib). apply cw_self. }
+    pose proof (Qeq_bool_spec (qmax_list (map gpair (cpairs_from x x t))) 0) as Hz.
+    destruct (Qeq_bool (qmax_list (map gpair (cpairs_from x x t))) 0); [reflexivity | contradiction].
+Qed.
 
 (* the code-faithful model of the sector routine equals 360 minus the largest circular gap *)
 Theorem sector_code_eq_spec (l : list Q) : l <> [] -> sector_x false (fins l) =x= XFin (sector_spec l).
